@@ -553,6 +553,195 @@ theorem default_rule_without_yaml (table : List (Str × List Row)) (pfx name : S
       transcodeName [⟨"get".toList, '/' :: pfx ++ "/{name=**/operations/*}".toList, none⟩] name := by
   simp [opsGetPath, h]
 
+/-! ### Every declared binding reaches the operations client -/
+
+/-- `d.get(k)` -/
+def lookupSel {β : Type} (d : List (Str × β)) (k : Str) : Option β := (d.find? (·.1 == k)).map (·.2)
+
+theorem find_map_set_same {β : Type} (d : List (Str × β)) (k : Str) (v : β) :
+    (d.map (fun e => if e.1 == k then (k, v) else e)).find? (·.1 == k) = (d.find? (·.1 == k)).map (fun _ => (k, v)) := by
+  induction d with
+  | nil => rfl
+  | cons e es ih =>
+    rw [List.map_cons, List.find?_cons, List.find?_cons]
+    cases hb : (e.1 == k) with
+    | true =>
+      have : ((k, v) : Str × β).1 == k := by simp
+      simp only [if_true, this, Option.map_some]
+    | false =>
+      simp only [Bool.false_eq_true, if_false, hb]
+      exact ih
+
+theorem find_map_set_other {β : Type} (d : List (Str × β)) (k k' : Str) (v : β) (hk : k' ≠ k) :
+    (d.map (fun e => if e.1 == k then (k, v) else e)).find? (·.1 == k') = d.find? (·.1 == k') := by
+  induction d with
+  | nil => rfl
+  | cons e es ih =>
+    rw [List.map_cons, List.find?_cons, List.find?_cons]
+    cases hb : (e.1 == k) with
+    | true =>
+      have h1 : (((k, v) : Str × β).1 == k') = false := by
+        simp only [beq_eq_false_iff_ne, ne_eq]; exact fun h => hk h.symm
+      have h2 : (e.1 == k') = false := by
+        have : e.1 = k := by simpa using hb
+        rw [this]; simp only [beq_eq_false_iff_ne, ne_eq]; exact fun h => hk h.symm
+      simp only [if_true, h1, h2]
+      exact ih
+    | false =>
+      simp only [Bool.false_eq_true, if_false]
+      cases (e.1 == k') with
+      | true => rfl
+      | false => exact ih
+
+theorem lookupSel_dictSet_same {β : Type} (d : List (Str × β)) (k : Str) (v : β) : lookupSel (dictSet d k v) k = some v := by
+  unfold lookupSel dictSet
+  split
+  · rename_i h
+    rw [find_map_set_same]
+    obtain ⟨x, hx, hk⟩ := List.any_eq_true.mp h
+    cases hf : d.find? (·.1 == k) with
+    | none => exact absurd hk (List.find?_eq_none.mp hf x hx)
+    | some e => rfl
+  · rename_i h
+    have hn : ∀ x ∈ d, ¬ (x.1 == k) = true := by
+      intro x hx hk
+      exact h (List.any_eq_true.mpr ⟨x, hx, hk⟩)
+    rw [List.find?_append, List.find?_eq_none.mpr hn]
+    simp
+
+theorem lookupSel_dictSet_other {β : Type} (d : List (Str × β)) (k k' : Str) (v : β) (hk : k' ≠ k) :
+    lookupSel (dictSet d k v) k' = lookupSel d k' := by
+  unfold lookupSel dictSet
+  split
+  · rw [find_map_set_other d k k' v hk]
+  · rw [List.find?_append]
+    have : ¬ k = k' := fun h => hk h.symm
+    cases h : List.find? (fun x => x.1 == k') d <;> simp [this]
+
+/-- `API.http_options` is a dict comprehension: the entry of a selector is the binding list of the LAST rule that names it -/
+theorem httpOptions_lookup (res : List Str) (rules : List YamlRule) (d : List (Str × List Row)) (s : Str) :
+    lookupSel (rules.foldl (fun d r => dictSet d r.selector (ruleRows res r)) d) s =
+      match rules.reverse.find? (·.selector == s) with
+      | some r => some (ruleRows res r)
+      | none => lookupSel d s := by
+  induction rules generalizing d with
+  | nil => simp
+  | cons r rs ih =>
+    simp only [List.foldl_cons, List.reverse_cons, List.find?_append]
+    rw [ih]
+    cases h : List.find? (fun x => x.selector == s) rs.reverse with
+    | some r' => simp
+    | none =>
+      by_cases hs : r.selector = s
+      · subst hs
+        simp [lookupSel_dictSet_same]
+      · have : s ≠ r.selector := fun e => hs e.symm
+        simp [hs, lookupSel_dictSet_other _ _ _ _ this]
+
+theorem mem_of_lookupSel {β : Type} {d : List (Str × β)} {k : Str} {v : β} (h : lookupSel d k = some v) : (k, v) ∈ d := by
+  unfold lookupSel at h
+  cases hf : d.find? (·.1 == k) with
+  | none => simp [hf] at h
+  | some e =>
+    simp [hf] at h
+    have h1 := List.find?_some hf
+    have h2 := List.mem_of_find?_eq_some hf
+    have : e = (k, v) := by
+      cases e with
+      | mk a b => simp at h1 h; simp [h1, h]
+    exact this ▸ h2
+
+/-- **every declared binding is in the table handed to the operations client**: for the last rule `r` that names an
+`google.longrunning.Operations.*` selector, the table's entry is the WHOLE list `primary :: additional_bindings`
+(those api-core can parse), in declaration order — not just one of them -/
+theorem declared_bindings_in_table (res : List Str) (pre post : List YamlRule) (r : YamlRule)
+    (hsel : "google.longrunning.Operations".toList.isPrefixOf r.selector = true)
+    (hlast : ∀ r' ∈ post, r'.selector ≠ r.selector) :
+    (r.selector, ruleRows res r) ∈ opsHttpTable res (pre ++ r :: post) ∧
+    ∀ b ∈ r.primary :: r.additional, ∀ row, parseBinding res b = some row →
+      ∃ e ∈ opsHttpTable res (pre ++ r :: post), e.1 = r.selector ∧ row ∈ e.2 := by
+  have hfind : (pre ++ r :: post).reverse.find? (·.selector == r.selector) = some r := by
+    simp only [List.reverse_append, List.reverse_cons, List.append_assoc, List.find?_append]
+    have : post.reverse.find? (fun x => x.selector == r.selector) = none := by
+      apply List.find?_eq_none.mpr
+      intro x hx
+      simpa using hlast x (List.mem_reverse.mp hx)
+    simp [this]
+  have hl : lookupSel (httpOptions res (pre ++ r :: post)) r.selector = some (ruleRows res r) := by
+    unfold httpOptions
+    rw [httpOptions_lookup, hfind]
+  have hmem : (r.selector, ruleRows res r) ∈ opsHttpTable res (pre ++ r :: post) := by
+    simp only [opsHttpTable, List.mem_filter]
+    exact ⟨mem_of_lookupSel hl, hsel⟩
+  refine ⟨hmem, ?_⟩
+  intro b hb row hrow
+  refine ⟨_, hmem, rfl, ?_⟩
+  simp only [ruleRows, List.mem_filterMap]
+  exact ⟨b, hb, hrow⟩
+
+theorem find_filter_of_imp {α : Type} (p q : α → Bool) (l : List α) (h : ∀ a, q a = true → p a = true) :
+    (l.filter p).find? q = l.find? q := by
+  induction l with
+  | nil => rfl
+  | cons a as ih =>
+    cases hp : p a with
+    | true =>
+      rw [List.filter_cons_of_pos hp, List.find?_cons, List.find?_cons, ih]
+    | false =>
+      have hq : q a = false := by
+        cases hq : q a with
+        | false => rfl
+        | true => rw [h a hq] at hp; cases hp
+      rw [List.filter_cons_of_neg (by simp [hp]), List.find?_cons, hq, ih]
+
+/-- a name accepted by the template of ANY row of the table gets a URL: the poll is sent -/
+theorem transcodeName_isSome_of_row (rows : List Row) (row : Row) (t : NameTemplate) (name : Str)
+    (hrow : row ∈ rows) (ht : parseNameTemplate row.uri = some t) (hm : matchSegs t.pattern (splitOn '/' name) = true) :
+    (transcodeName rows name).isSome = true := by
+  unfold transcodeName
+  rw [List.findSome?_isSome_iff]
+  exact ⟨row, hrow, by simp [ht, hm]⟩
+
+/-- **an operation whose name fits any declared GetOperation binding can be polled** (primary, middle or last) -/
+theorem declared_get_binding_is_pollable (res : List Str) (pre post : List YamlRule) (r : YamlRule) (pfx name : Str)
+    (hsel : r.selector = getOperationSelector)
+    (hlast : ∀ r' ∈ post, r'.selector ≠ r.selector)
+    (b : Binding) (hb : b ∈ r.primary :: r.additional) (row : Row) (hrow : parseBinding res b = some row)
+    (t : NameTemplate) (ht : parseNameTemplate row.uri = some t) (hm : matchSegs t.pattern (splitOn '/' name) = true) :
+    (opsGetPath (opsHttpTable res (pre ++ r :: post)) pfx name).isSome = true := by
+  have hp : "google.longrunning.Operations".toList.isPrefixOf r.selector = true := by rw [hsel]; decide
+  have hmem := (declared_bindings_in_table res pre post r hp hlast).1
+  have hrows : row ∈ ruleRows res r := by
+    simp only [ruleRows, List.mem_filterMap]
+    exact ⟨b, hb, hrow⟩
+  -- the filter keeps every entry the GetOperation lookup can find
+  have hl : lookupSel (opsHttpTable res (pre ++ r :: post)) getOperationSelector = some (ruleRows res r) := by
+    have hfind : (pre ++ r :: post).reverse.find? (·.selector == r.selector) = some r := by
+      simp only [List.reverse_append, List.reverse_cons, List.append_assoc, List.find?_append]
+      have : post.reverse.find? (fun x => x.selector == r.selector) = none := by
+        apply List.find?_eq_none.mpr
+        intro x hx
+        simpa using hlast x (List.mem_reverse.mp hx)
+      simp [this]
+    have h0 : lookupSel (httpOptions res (pre ++ r :: post)) r.selector = some (ruleRows res r) := by
+      unfold httpOptions
+      rw [httpOptions_lookup, hfind]
+    rw [hsel] at h0
+    unfold lookupSel opsHttpTable at *
+    rw [find_filter_of_imp]
+    · exact h0
+    · intro x hx
+      have : x.1 = getOperationSelector := by simpa using hx
+      rw [this]; decide
+  unfold opsGetPath
+  unfold lookupSel at hl
+  cases hf : (opsHttpTable res (pre ++ r :: post)).find? (·.1 == getOperationSelector) with
+  | none => simp [hf] at hl
+  | some e =>
+    simp [hf] at hl
+    simp only [hl]
+    exact transcodeName_isSome_of_row _ row t name hrows ht hm
+
 /-! ### Sub-packages: every package the LRO code uses is the package of the file that DECLARES the service -/
 
 theorem splitOn_ne_nil (c : Char) (s : Str) : splitOn c s ≠ [] := by
@@ -826,6 +1015,20 @@ example : opsGetPathOf (opsHttpTable [] []) zooSub "shelves/s1/operations/op7".t
     = some ("get".toList, "/keepers/shelves/s1/operations/op7".toList) := by decide
 example : opsGetPathOf (opsHttpTable [] [getRule "/v1/{name=shelves/*/operations/*}"]) zooSub "shelves/s1/operations/op7".toList
     = some ("get".toList, "/v1/shelves/s1/operations/op7".toList) := by decide
+/-- a GetOperation rule with three bindings (operations under shelves, archives, projects/locations): names fitting the
+primary, the middle and the last binding are all polled, each at its own URL (hypotheses of `declared_bindings_in_table` /
+`declared_get_binding_is_pollable` are met); a table that kept only the LAST binding would have no URL for the first two -/
+def getRule3 : YamlRule := getRule "/v1/{name=shelves/*/operations/*}"
+  [⟨"get".toList, "/v1/{name=archives/*/operations/*}".toList, []⟩, ⟨"get".toList, "/v2/{name=projects/*/locations/*/operations/*}".toList, []⟩]
+example : (opsHttpTable [] [getRule3]).map (fun e => e.2.length) = [3] := by decide
+example : opsGetPath (opsHttpTable [] [getRule3]) "v1".toList "shelves/s1/operations/op7".toList
+    = some ("get".toList, "/v1/shelves/s1/operations/op7".toList) := by decide
+example : opsGetPath (opsHttpTable [] [getRule3]) "v1".toList "archives/a1/operations/op7".toList
+    = some ("get".toList, "/v1/archives/a1/operations/op7".toList) := by decide
+example : opsGetPath (opsHttpTable [] [getRule3]) "v1".toList "projects/p/locations/l/operations/op7".toList
+    = some ("get".toList, "/v2/projects/p/locations/l/operations/op7".toList) := by decide
+example : opsGetPath (opsHttpTable [] [getRule "/v2/{name=projects/*/locations/*/operations/*}"]) "v1".toList "shelves/s1/operations/op7".toList
+    = none := by decide
 /-- a name the default pattern does not accept: no URL (api-core raises ValueError) -/
 example : opsGetPath (opsHttpTable [] []) "v1".toList "operations/op1".toList = none := by decide
 
